@@ -62,7 +62,8 @@ CLAIMED.update({
               "relabelling/reordering invariance, and the link to the Kendall-tau additivity test the code uses. is_single_crossing and "
               "is_single_crossing_conflict_sets are compared with both references (exhaustive m<=4, chains with every choice of the first "
               "two stored orders, switch-back negatives, n<m and n>=m paths); every returned sequence goes through the verified checker.",
-              "The implementation's sort/bucket strategy is not mirrored: it is tied to the proved references by differential runs only.", "C04"),
+              "Deepening: is_single_crossing itself (scores, stable sort / bucket array, verification pass) is mirrored step by step and proved "
+              "sound, complete and error-free (sc_algo_correct, sc_algo_no_error); the mirror is compared with the code on every case.", "C04"),
     "C06": _m("Coq theorems for the seven rules (mirror models of singlewinner.py + decorators + is_approval): winner set = exactly the "
               "maximisers (veto: minimisers) of the textbook per-voter score on the expanded profile (Copeland = contests won, SAV in exact "
               "rationals), regrouping invariance, type guards give PreferenceIncompatibleError. Exhaustive (m<=3) and tie-heavy random "
@@ -78,12 +79,15 @@ CLAIMED.update({
               "remaining profile single-peaked on the returned axis', certificate => upper bound, monotonicity under restriction (lower "
               "bounds from small cores), invariance. Both ILPs (soc, toc) and k_alternative_deletion (soc) are compared with the reference "
               "for m<=5/6 and their certificates checked up to m=10/12.",
-              "The ILP builders, CBC (max_gap 0.05) and the dynamic programme are not mirrored; fewer than 20 alternatives as the property requires.", "C12"),
+              "Deepening: the ILP constraint builders are mirrored and proved sound and complete (ILP optimum = reference optimum, decoding of axis "
+              "and deletion set); the constraint multiset python-mip receives is compared with the mirror. CBC (max_gap 0.05) and the dynamic "
+              "programme are not modelled; fewer than 20 alternatives as the property requires.", "C12"),
     "C13": _r("Coq theorems: single-peaked-on-a-tree specification, connectivity test, tree and witness checkers proved equivalent to the "
               "spec (orientation/order of edges irrelevant), candidate-tree enumeration proved complete, decider correct for every size, "
               "invariance. is_single_peaked_on_tree compared with the decider (exhaustive m<=4, random m<=7/8), every returned edge list "
               "through the verified checker (planted trees up to m=30).",
-              "Trick's algorithm is not mirrored. A wrong False on a large profile is only seen on planted positives.", "C13"),
+              "Deepening: the algorithm itself (get_B, leaf removal loop, with Python's set iteration orders as parameters) is mirrored and proved "
+              "terminating, sound and complete (Trick's theorem: trick_decides, trick_choice_independent); verdicts compared at every size.", "C13"),
     "C14": _m("Coq theorems for bucklin_voting_winner and fallback_voting_winner (mirror model with explicit fuel): winners = argmax of the "
               "top-k* counts at the least depth reaching the strict-majority quota on the expanded profile (fallback: full approval counts "
               "if none), fuel never exhausted (termination incl. single-alternative profiles), regrouping, guards. Exhaustive m<=3 and "
@@ -101,6 +105,65 @@ CLAIMED.update({
               "parameter guards. Exhaustive small and collapse-prone random differential runs.",
               "Relative truncators: the per-order integer sizes int(ceil(len*t)) are computed by the harness with the same float arithmetic and "
               "passed to the model; an empty truncator list is outside 'arbitrary positive values' (fo_partition_empty_list_refuted).", "C17"),
+})
+
+
+CLAIMED.update({
+    "C03": _r("Coq theorems: single-peakedness specification for strict profiles, axis checker equivalent to 'every alternative exactly once "
+              "and every voter single-peaked on it', brute-force decider correct and complete for every size, heredity (exact negatives "
+              "from small cores), invariance. is_single_peaked compared with the decider (exhaustive m<=4 incl. all 2-voter profiles with "
+              "non-contiguous ids and common bottoms, random m<=7/8), every returned axis through the checker (m up to 43).",
+              "The Escoffier-Lang-Ozturk implementation is not mirrored. A wrong False on a large profile is seen on planted positives "
+              "and core-refuted negatives only.", "C03"),
+    "C05": _r("Coq theorems: consecutive-ones checker and decider (any matrix), the eight approval-domain specifications with boolean "
+              "witness checkers and deciders proved correct for every size, the mirrored reductions instance->matrix (CI, CEI via the "
+              "prefix/suffix lemma, VI, VEI, WSC) and witness translations, dichotomous Euclidean <-> CI over Q in both directions with the "
+              "code's construction as witness, is_part/is_2_part mirrored and proved; recognisers proved correct relative to a solver "
+              "contract. solve_consecutive_ones/isC1P compared with the decider up to 7/8 columns and through the checker up to 40x40 "
+              "(planted positives, Tucker-core negatives); all eight recognisers on exhaustive small and random instances.",
+              "The PQ-tree internals are not modelled (compared with the reference and through the verified checker only).", "C05"),
+    "C10": _m("Coq theorems about the entry-point layer on top of the three parser models: type gate (TypeError, nothing loaded), "
+              "dispatch on the extension, the three line splitters give the same stripped lines, all parsers depend on a line only "
+              "through strip (and remove-spaces for ballot lines), every entry point on every restyling (LF/CRLF/CR, padding, blanks at "
+              "token boundaries) of a written file returns the round-trip instance, header_only gives the same metadata and no ballots. "
+              "Differential runs on real files through parse_file, parse_str, parse_url (file: URL), get_parsed_instance, all flag "
+              "combinations, every (class, extension) pair.",
+              "Padding excludes the splitlines-only boundaries (U+001C-1E, U+0085, U+2028/9, VT, FF) per DESIGN §7.0 "
+              "(C10_note_splitlines_only_boundary); blank lines are not a restyling of a line.", "C10"),
+    "C11": _m("Coq theorems: the mirrored scan of is_single_peaked_axis accepts exactly the axes on which every union of top classes is "
+              "contiguous (valley <-> level sets), sp_cons_ones_matrix mirrored with C1P(matrix) <-> weakly single-peaked, brute-force "
+              "decider correct for every size, ILP constraint builders mirrored with feasibility <-> single-peakedness "
+              "(ilp_sp_feasible_iff, decoding of the axis), strict agreement, TypeError gate, heredity, invariance. "
+              "is_single_peaked_axis compared on every axis (m<=4) and random; PQ-tree and ILP verdicts vs the decider (thousands of "
+              "near-axis profiles m=5..7); ILP axis through the checker; the constraints python-mip receives compared with the mirror.",
+              "PQ-tree internals and CBC are not modelled; is_single_peaked (strict) is compared, not proved.", "C11"),
+    "C18": _r("Coq theorems: partition checker equivalent to 'axes disjoint, cover every alternative once, each single-peaked for the "
+              "restricted profile', set-partition enumeration sound and complete, minimum number of axes correct for every size, "
+              "bounds 1 <= min <= ceil(m/2), the brute-force contract (valid + minimum iff <= k, else None), invariance. "
+              "k_alt_partition_approx through the checker up to m=25; k_alternative_partition_brut_force vs the reference for every k "
+              "(exhaustive m<=5, fixed case set m=6..9).",
+              "Open known finding KF-C18-a (brute force not minimum from m=6 on: identified by input sha list; the m>=6 case set is "
+              "deterministic, independent of VERIF_SEED). The DFS and the dynamic programme are not mirrored.", "C18"),
+    "C19": _r("Coq theorems: embedding checker over exact rationals equivalent to 'every voter ranks by strictly increasing distance', "
+              "Euclidean => single-peaked and single-crossing (necessary conditions), and an exact decision procedure "
+              "(Fourier-Motzkin feasibility proved sound and complete; eucl_decide_correct) for every size. is_one_euclidean compared "
+              "with the exact decider up to m=6, n=12; every returned map converted exactly and checked; planted positives beyond.",
+              "The implementation's own algorithm (colouring, LP via CBC, placement of unconstrained alternatives) is not mirrored: it is "
+              "tied to the proved decider and checker by a deterministic campaign (constant seed; exact verdict comparison up to m=6, n=12, "
+              "witness check and planted positives up to m=12). Four defects found this way were repaired (5a8bee2, 3211aad, 4ca33bd, "
+              "74e9e2c); no open finding remains. Labels must be 1..m. ", "C19"),
+})
+
+
+CLAIMED.update({
+    "C08": _m("Coq theorems (every well-formed categorical instance, any size) about a mirror model of CategoricalInstance.write/parse: "
+              "write->parse round trip through readlines and splitlines (= the stably sorted view: same category count and names, "
+              "alternative names, counts, metadata, ballots with empty categories in any position, multiplicities), non-increasing "
+              "multiplicities in file order, byte-for-byte idempotence, tokenizer/category construction inverting the ballot printer. "
+              "Tied to the code on every run: model-parse(impl-write), impl-parse(model-write), byte equality of both writers, tokenizer vs "
+              "re.findall, write-mutate-write histories on one object, unsorted categories.",
+              "Text = code points; ASCII digits only; category keys are the integers the parser produces; a ballot with zero categories is "
+              "outside the quantifier.", "C08"),
 })
 
 _PENDING = "not claimed yet: the model and check for this property are still being built (see DESIGN.md §12)"
